@@ -142,4 +142,23 @@ def specDefaultType (d : TzData) : Nat :=
       else 0
     ((List.range' i0 (n - i0)).find? fun i => !d.isDst i).getD 0
 
+/-! ### the civil-order condition -/
+
+/-- the whole table of a file without a footer rule: `tableOf`, followed by a sentinel entry at
+`2^31 - 1` of the last type when the last time is negative -/
+def fullTable (d : TzData) : List (Int × Nat) :=
+  let t := tableOf d (specDefaultType d)
+  match t.getLast? with
+  | some last => if last.1 < 0 then t ++ [(2147483647, last.2)] else t
+  | none => t
+
+/-- utoff of type `i` (0 outside the table) -/
+def TzData.utoff (d : TzData) (i : Nat) : Int := (d.types[i]?.map (·.1)).getD 0
+
+/-- the local civil seconds shown at the entries of the table are strictly increasing: an offset
+change never crosses the next one (`time + utoff` of each entry is below that of the next; since `<`
+is transitive this is the same as the list being pairwise increasing) -/
+def CivilOrderOK (d : TzData) : Prop :=
+  ((fullTable d).map fun p => p.1 + d.utoff p.2).Pairwise (· < ·)
+
 end Cctz.Spec
